@@ -189,7 +189,7 @@ ENSURES(RET == 1 IMPLIES (out == NULL || (OLD(*out) == NULL ? *out == NULL :
 /* DER-level verification: accepts only one strictly encoded signature with NO trailing bytes, and only if the core
    verification returned 1 on exactly the parsed (r, s), the caller's digest and the caller's key */
 int sm2_verify(const SM2_KEY *key, const uint8_t dgst[32], const uint8_t *sigbuf, size_t siglen)
-REQUIRES((key == NULL || RD_OK(key, sizeof(*key))) && (dgst == NULL || RD_OK(dgst, 32)) && siglen <= 4096 && (sigbuf == NULL || RD_OK(sigbuf, siglen)))
+REQUIRES((key == NULL || RD_OK(key, sizeof(*key))) && (dgst == NULL || RD_OK(dgst, 32)) && siglen <= (size_t)INT_MAX && (sigbuf == NULL || RD_OK(sigbuf, siglen)))
 ASSIGNS(G_dv_last, G_dv_calls, G_dv_key, G_dv_dgst, G_dv_sigbyte)
 ENSURES(RET == 1 || RET == -1)
 ENSURES(RET == 1 IMPLIES G_dv_calls == OLD(G_dv_calls) + 1 && G_dv_last == 1 && G_dv_key == (size_t)key && G_dv_dgst == (size_t)dgst)
@@ -216,7 +216,7 @@ ENSURES((V256(pub->Z) == BV_MONT_ONE && !ISINF(pub) && G_tk >= 2 + idlen + 160 &
 
 /* streaming verification: same acceptance condition as sm2_verify, on the digest of the context's stream */
 int sm2_verify_finish(SM2_VERIFY_CTX *ctx, const uint8_t *sigbuf, size_t siglen)
-REQUIRES((ctx == NULL || RW_OK(ctx, sizeof(*ctx))) && siglen <= 4096 && (sigbuf == NULL || RD_OK(sigbuf, siglen)))
+REQUIRES((ctx == NULL || RW_OK(ctx, sizeof(*ctx))) && siglen <= (size_t)INT_MAX && (sigbuf == NULL || RD_OK(sigbuf, siglen)))
 ASSIGNS(ctx != NULL: OBJ_UPTO((uint8_t *)ctx, sizeof(*ctx)); G_dv_last, G_dv_calls, G_dv_key, G_dv_dgst, G_dv_sigbyte, G_fin_fed, G_fin_tbyte, G_fin_tseen, G_fin_calls)
 ENSURES(RET == 1 || RET == -1)
 ENSURES(RET == 1 IMPLIES G_dv_calls == OLD(G_dv_calls) + 1 && G_dv_last == 1 && G_dv_key == (size_t)ctx->public_point_table)
